@@ -50,11 +50,8 @@ func (v *Value) UnmarshalNBT(tagType byte, r nbt.DecoderReader) error {
 		if n < 0 {
 			return errors.New("byte array length less than 0")
 		}
-		v.data = append(v.data[:0], make([]byte, 4+int(n))...)
-		binary.BigEndian.PutUint32(v.data, uint32(n))
-
-		_, err = io.ReadFull(r, v.data[4:])
-		if err != nil {
+		v.data = binary.BigEndian.AppendUint32(v.data[:0], uint32(n))
+		if v.data, err = appendN(v.data, r, int(n)); err != nil {
 			return err
 		}
 
@@ -133,11 +130,8 @@ func (v *Value) UnmarshalNBT(tagType byte, r nbt.DecoderReader) error {
 		if n < 0 {
 			return errors.New("int array length less than 0")
 		}
-		v.data = append(v.data[:0], make([]byte, 4+int(n)*4)...)
-		binary.BigEndian.PutUint32(v.data, uint32(n))
-
-		_, err = io.ReadFull(r, v.data[4:])
-		if err != nil {
+		v.data = binary.BigEndian.AppendUint32(v.data[:0], uint32(n))
+		if v.data, err = appendN(v.data, r, int(n)*4); err != nil {
 			return err
 		}
 
@@ -150,15 +144,32 @@ func (v *Value) UnmarshalNBT(tagType byte, r nbt.DecoderReader) error {
 		if n < 0 {
 			return errors.New("long array length less than 0")
 		}
-		v.data = append(v.data[:0], make([]byte, 4+int(n)*8)...)
-		binary.BigEndian.PutUint32(v.data, uint32(n))
-
-		_, err = io.ReadFull(r, v.data[4:])
-		if err != nil {
+		v.data = binary.BigEndian.AppendUint32(v.data[:0], uint32(n))
+		if v.data, err = appendN(v.data, r, int(n)*8); err != nil {
 			return err
 		}
 	}
 	return nil
+}
+
+// appendN appends exactly n bytes read from r to buf. The buffer grows as the
+// data arrives (64 KiB first, then at most doubling), so that a few bytes of
+// input declaring a length of 2^31-1 fail with an EOF instead of allocating
+// gigabytes before the first byte is read.
+func appendN(buf []byte, r io.Reader, n int) ([]byte, error) {
+	for first := true; n > 0; first = false {
+		start := len(buf)
+		step := min(n, max(start, 1<<16))
+		buf = append(buf, make([]byte, step)...)
+		if _, err := io.ReadFull(r, buf[start:]); err != nil {
+			if err == io.EOF && !first {
+				err = io.ErrUnexpectedEOF
+			}
+			return buf[:start], err
+		}
+		n -= step
+	}
+	return buf, nil
 }
 
 func readTag(r nbt.DecoderReader) (tagType byte, tagName string, err error) {
